@@ -138,6 +138,8 @@ pub enum Cmd<'a> {
     Open { timeout: u16, verifier: &'a [u8], discriminator: u16, iterations: u32, salt: &'a [u8] },
     /// `OpenBasicCommissioningWindow(timeout)`
     OpenBasic { timeout: u16 },
+    /// `RevokeCommissioning`
+    Revoke,
 }
 
 static NODE: Node<'static> = Node::new(&[]);
@@ -164,6 +166,7 @@ pub fn invoke<'a, C: Crypto>(device: &'a Matter<'a>, crypto: &C, exchange: &Exch
             Cmd::OpenBasic { timeout } => {
                 timeout.to_tlv(&TLVTag::Context(0), &mut wb)?;
             }
+            Cmd::Revoke => {}
         }
         wb.end_container()
     })();
@@ -174,11 +177,13 @@ pub fn invoke<'a, C: Crypto>(device: &'a Matter<'a>, crypto: &C, exchange: &Exch
     let cmd_id = match cmd {
         Cmd::Open { .. } => 0,
         Cmd::OpenBasic { .. } => 1,
+        Cmd::Revoke => 2,
     };
     let ctx = CmdCtx { hc: &im, exchange, cmd: CmdDetails::new(0, ADM_COMM_CLUSTER, cmd_id, 0, false, None), data: data.clone() };
     let res = match cmd {
         Cmd::Open { .. } => handler.handle_open_commissioning_window(&ctx, OpenCommissioningWindowRequest::new(data)),
         Cmd::OpenBasic { .. } => handler.handle_open_basic_commissioning_window(&ctx, OpenBasicCommissioningWindowRequest::new(data)),
+        Cmd::Revoke => handler.handle_revoke_commissioning(&ctx),
     };
     match res {
         Ok(()) => "ok".into(),
